@@ -69,7 +69,7 @@ def setBlock (st : BlkSt) (c : Cols) : BlkSt :=
 
 /-- "Store the sequence name": first block = `esl_msa_Expand` when needed + `esl_msa_SetSeqName` (+ `nseq++` in the Clustal
     reader, `incNseq`); later blocks = the row count check and the comparison with the stored name -/
-def blkName (incNseq : Bool) (st : BlkSt) (name : Bytes) : Sum BlkSt (Res Msa) :=
+def blkNameCore (incNseq : Bool) (st : BlkSt) (name : Bytes) : Sum BlkSt (Res Msa) :=
   if st.nblocks == 0 then
     -- if (idx >= msa->sqalloc) esl_msa_Expand(msa): every per-sequence array doubles, new entries NULL
     let sqalloc' := expandAlloc st.idx st.sqalloc
@@ -85,6 +85,11 @@ def blkName (incNseq : Bool) (st : BlkSt) (name : Bytes) : Sum BlkSt (Res Msa) :
       | some nm =>
         if !memstrcmp name nm then .inr (.eformat "expected sequence on this line, but saw another")
         else .inl st
+
+/-- … preceded, in the first block, by `if (memchr(name, 0, name_len)) ESL_XFAIL(eslEFORMAT, "NUL byte in sequence name")`: names are
+    kept as C strings, a NUL inside the name field would silently truncate the name (repair of C03:reformat:nul-in-name) -/
+def blkName (incNseq : Bool) (st : BlkSt) (name : Bytes) : Sum BlkSt (Res Msa) :=
+  if st.nblocks == 0 && name.contains 0 then .inr (.eformat "NUL byte in sequence name") else blkNameCore incNseq st name
 
 /-- "Append the sequence" and `idx++` -/
 def blkAppend (cfg : Cfg) (st : BlkSt) (seq : Bytes) : Sum BlkSt (Res Msa) :=
